@@ -363,8 +363,8 @@ pub fn scale(tier: &str, _seed: u64, out: &mut Out) {
     let sizes: Vec<usize> = if tier == "thorough" { vec![250, 2500, 25_000, 200_000] } else { vec![250, 2500, 25_000] };
     let families: Vec<(&str, Box<dyn Fn(usize) -> String>)> = vec![
         ("flat-elements", Box::new(|n| "<v a=\"{{a}}\" class=\"x {{b}}\">t{{c}}</v>".repeat(n))),
-        // quadratic in the number of branches (find_if_element_index / drain): capped
-        ("if-chain", Box::new(|n| format!("<v wx:if=\"{{{{a}}}}\"/>{}", "<v wx:elif=\"{{b}}\">x</v>".repeat(n.min(2500))))),
+        // (was quadratic in the number of branches and capped at 2500 until the repair of the chained iterators)
+        ("if-chain", Box::new(|n| format!("<v wx:if=\"{{{{a}}}}\"/>{}", "<v wx:elif=\"{{b}}\">x</v>".repeat(n)))),
         ("nested-64", Box::new(|n| { let d = 64; let per = (n / d).max(1); format!("{}{}{}", "<v>".repeat(d), "<w a=\"{{a.b[c]}}\"/>".repeat(per), "</v>".repeat(d)) })),
         // operator chains are bounded by the property (nesting <= 64): many bounded expressions instead
         ("many-expressions", Box::new(|n| format!("<v a=\"{{{{ a{} }}}}\"/>", "+b*c".repeat(32)).repeat(n / 8 + 1))),
@@ -436,6 +436,12 @@ pub fn scale(tier: &str, _seed: u64, out: &mut Out) {
     let css_families: Vec<(&str, Box<dyn Fn(usize) -> String>)> = vec![
         ("css-rules", Box::new(|n| ".a .b > .c:not(.d) { width: 10rpx; margin: calc(1rpx + 2px) }".repeat(n))),
         ("css-hosts", Box::new(|n| "@media x { :host { a: 1rpx } .p { q: r } }".repeat(n))),
+        // long flat runs where the transformer reads the tokens itself (no nesting): comments between selector tokens, in
+        // selector functions, at-rule parentheses and calc sums; many tokens in one prelude / one block
+        ("css-comment-run-selector", Box::new(|n| format!(".a{}.b{{c:d}}", "/**/".repeat(n * 8)))),
+        ("css-comment-run-function", Box::new(|n| format!(".a:not({} .b){{w:calc(1px {}+ 2rpx)}}@media ({}min-width:1rpx){{.c{{}}}}", "/*x*/".repeat(n * 8), "/**/".repeat(n * 8), "/**/".repeat(n * 8)))),
+        ("css-long-selector", Box::new(|n| format!("{}{{c:d}}", ".a > .b ~ c ".repeat(n)))),
+        ("css-long-value", Box::new(|n| format!(".a{{b:{}}}", "1rpx calc(1px + 2px) ".repeat(n)))),
     ];
     for (name, f) in css_families.iter() {
         for n in &sizes {
